@@ -32,7 +32,7 @@ D_ALPH = [0.0, 1e-12, 1e-3, 0.5]
 
 def bound(tier):
     return {
-        "quick": "36 adaptive settings (incl. dt_init = dt_max) + 6 non-adaptive, scripts with <= 1 deviation over window+5 steps; real-drive family: 4 runs",
+        "quick": "36 adaptive settings (incl. dt_init = dt_max) + 6 non-adaptive, scripts with <= 1 deviation over window+5 steps; real-drive family: 5 runs (field and current drives)",
         "thorough": "144 adaptive settings + 12 non-adaptive, scripts with <= 2 deviations over window+6 steps; real-drive family: 12 runs",
     }[tier]
 
@@ -66,8 +66,10 @@ def cases(tier, seed):
                 if nd == 2 and s["maxr"] == 10:
                     continue  # 13 x 13 alternatives per pair: covered by maxr <= 3 (same counter logic)
                 out.append(dict(fam="script", setting=s, steps=steps, pos=list(pos)))
-    nreal = 4 if tier == "quick" else 12
-    reals = list(itertools.product(("field", "current"), (0.25, 0.5), (1, 3, 10)))[:nreal]
+    if tier == "quick":
+        reals = [("field", 0.25, 1), ("field", 0.5, 3), ("current", 0.25, 3), ("current", 0.5, 1), ("field", 0.25, 10)]
+    else:
+        reals = list(itertools.product(("field", "current"), (0.25, 0.5), (1, 3, 10)))
     for drive, mult, win in reals:
         out.append(dict(fam="real", drive=drive, mult=mult, window=win))
     # pinned terminal values other than 0: the windowed change must be that of the states actually visited
